@@ -16,7 +16,7 @@ var namePool = []string{
 
 var dirPool = []string{"d", "dir", "sub dir", "a", "b", "..d", "d..", "...", "日本", "x.d", "-", "aaa", "bbb", "f1", "a.txt", "deep", "é", " "}
 
-var suffixes = []string{".txt", "f2", "t", " ", ".gz", "é.txt", "", "a", ".bin", "1", "xt"}
+var suffixes = []string{".txt", "f2", "t", " ", ".gz", "é.txt", "", "a", ".bin", "1", "xt", "/f1", "d/a", "/a.txt", "b/f2", "dir/f1", "/a"}
 
 func contentDesc(r *prng.R, big bool) string {
 	var n int
@@ -117,18 +117,9 @@ func genTree(r *prng.R, big bool) *Case {
 			c.EDirs = append(c.EDirs, d)
 		}
 	}
-	c.Src = prng.Pick(r, []string{"src", "S/my src", "S/src.d", "S/ünï", "S/a/b/src", "S/..src"})
-	switch x := r.Intn(100); {
-	case x < 60:
-	case x < 88:
-		c.SrcForm = "slash"
-	case x < 92:
-		c.SrcForm = "dslash" // unclean spellings: outside of the round-trip theorem, the model must still agree
-	case x < 96:
-		c.SrcForm = "dotmid"
-	default:
-		c.SrcForm = "dot"
-	}
+	c.Src = prng.Pick(r, []string{"src", "s", "S/my src", "S/src.d", "S/ünï", "S/a/b/src", "S/..src"})
+	c.SrcForm = prng.Pick(r, []string{"", "", "", "", "slash", "slash", "slash", "dslash", "dotmid", "dot", "updown",
+		"rel", "reldot", "relslash", "dots3", "cwd", "cwdslash", "parent"})
 	c.Suffix = prng.Pick(r, suffixes)
 	c.Dest = prng.Pick(r, []string{"dest", "dest", "out dir", "m/dest", "m/n/d.e.s.t", "ünzip", "..dest"})
 	c.DestForm = prng.Pick(r, []string{"", "", "", "slash", "dslash", "dotmid"})
